@@ -620,6 +620,9 @@ func (ab *rulesPair) adaptGroups(lb []string) {
 			} else {
 				// Name may have been changed before, to prevent name clashes.
 				lb[i] = gb.Name
+				// Group will be transferred with this name.
+				// It must no longer be equalized with some group on device.
+				gb.nameOnDevice = gb.Name
 			}
 		}
 	}
